@@ -22,6 +22,7 @@ func profileFor(check, tier, variant string) *CheckDef {
 	d.MaxWindows = 20000
 	switch check {
 	case "C01":
+		d.CloseReopen = true
 		if thorough {
 			d.MaxOps = 60
 		}
@@ -54,6 +55,7 @@ func profileFor(check, tier, variant string) *CheckDef {
 		d.MinClients, d.MaxClients = 1, 3
 		d.MinOps, d.MaxOps = 4, 14
 		d.FSOnly, d.Images, d.AckedOnly, d.Torn = true, true, true, true
+		d.CloseReopen = true
 		d.PostRun = crashPostRun
 		if thorough {
 			d.MaxOps = 25
@@ -63,6 +65,7 @@ func profileFor(check, tier, variant string) *CheckDef {
 		d.MinOps, d.MaxOps = 3, 10
 		d.FSOnly, d.Images, d.AckedOnly, d.Torn = true, true, true, true
 		d.ForkDepth = 2
+		d.CloseReopen = true
 		d.PostRun = crashPostRun
 		if thorough {
 			d.MaxOps = 16
@@ -120,6 +123,7 @@ func profileFor(check, tier, variant string) *CheckDef {
 		d.MinClients, d.MaxClients = 1, 3
 		d.MinOps, d.MaxOps = 6, 22
 		d.FSOnly, d.Readers, d.DirInv, d.AckedOnly = true, true, true, true
+		d.CloseReopen = true
 		if thorough {
 			d.MaxOps = 45
 		}
@@ -142,6 +146,8 @@ func profileFor(check, tier, variant string) *CheckDef {
 		d.MinOps, d.MaxOps = 3, 9
 		d.FSOnly, d.Images, d.AckedOnly = true, true, true
 		d.Readers = true
+		d.CloseReopen = true
+		d.DirInv = true // directory invariants also under faults (failed removals are retried, nothing needed is removed)
 		d.PostRun = faultPostRun
 		if thorough {
 			d.MaxOps = 14
